@@ -55,6 +55,17 @@ CLAIMED = {
                 "Known finding F24: walls + non-diagonal inverse mass are not reversible.",
         "ref": "DESIGN.md section 3 C07",
     },
+    "C14": {
+        "technique": "Readout.tla selection operator and IntervalOK predicate; TLC enumerates every (n, burn, thin) and the real read-outs of "
+                     "all five samplers are compared id by id; every get_interval call is validated by ReadoutTrace.tla",
+        "text": "For every chain length up to 10 (quick) / 14 (thorough), every burn up to n+1 and thin up to 4/6, get_parameter, get_sample, "
+                "get_probabilities and the marginal's sample must be exactly the rows TLC selects, with first dimension = retained count "
+                "(0 and 1 included); get_interval results for fractions k/8 and counts none/1/2/3/6 are projected to row ids and ranks and "
+                "TLC evaluates IntervalOK on each.",
+        "note": "Trusted: TLC; row identification by exact matching (rows and probabilities pairwise distinct). The derived thinning of "
+                "get_interval(samples=m) is a free parameter of the specification.",
+        "ref": "DESIGN.md section 3 C14",
+    },
     "C15": {
         "technique": "Advance/AdvanceArith/Pool/RunForGen TLA+ models checked by TLC; every TLC call sequence and cost schedule driven "
                      "into the real advance / run_for (fake clock) / ChainPool; clock-read and step traces validated by RunFor.tla",
